@@ -792,7 +792,6 @@ func (e *env) observe(sec *ev.Section, filters []api.TrackerStatus, sigMode stri
 			} else if got == absent {
 				what = "missing:" + stName(want)
 			}
-			_ = tag // the situation is in the detail; the law depends on filter and entry status only
 			R.Violation("C06|local|filter-law|filter="+filterKey(f)+"|"+what,
 				detail(map[string]interface{}{"cid": e.names[i], "situation": tag, "filter": stName(f), "StatusAll(all)[cid]": stName(all.st[i]),
 					"StatusAll(filter)[cid]": stName(got), "expected": stName(want)}))
@@ -850,6 +849,21 @@ func letterVectors(n int, letters []letter) [][]letter {
 	}
 	rec(0)
 	return out
+}
+
+// within bounds a section's budget by what is left of the run's overall budget
+// (thorough tier: 27 minutes).
+var runStart = time.Now()
+
+func within(d time.Duration) time.Duration {
+	left := 27*time.Minute - time.Since(runStart)
+	if left < time.Second {
+		left = time.Second
+	}
+	if d > left {
+		return left
+	}
+	return d
 }
 
 func shards() int {
@@ -955,7 +969,7 @@ func explore(t *testing.T, secName string, n int, mode string, filters []api.Tra
 func TestLocalSingles(t *testing.T) {
 	if ev.Thorough() {
 		// every single-CID situation under every one of the 2^12 filters
-		explore(t, "local-singles", 1, "full", everyFilter(), "vector", 10*time.Minute)
+		explore(t, "local-singles", 1, "full", everyFilter(), "vector", within(8*time.Minute))
 		return
 	}
 	explore(t, "local-singles", 1, "full", quickFilters(), "vector", 60*time.Second)
@@ -965,7 +979,9 @@ func TestLocalSingles(t *testing.T) {
 
 func TestLocalPairs(t *testing.T) {
 	if ev.Thorough() {
-		explore(t, "local-pairs", 2, "full", everyFilter(), "vector", 14*time.Minute)
+		explore(t, "local-pairs", 2, "full", quickFilters(), "vector", within(8*time.Minute))
+		// every one of the 2^12 filters on pairs over the representative facts
+		explore(t, "local-pairs-every-union", 2, "reduced", everyFilter(), "vector", within(8*time.Minute))
 		return
 	}
 	explore(t, "local-pairs", 2, "full", basicFilters(), "vector", 60*time.Second)
@@ -973,7 +989,7 @@ func TestLocalPairs(t *testing.T) {
 
 func TestLocalTriples(t *testing.T) {
 	if ev.Thorough() {
-		explore(t, "local-triples", 3, "full", basicFilters(), "class", 12*time.Minute)
+		explore(t, "local-triples", 3, "full", basicFilters(), "class", within(20*time.Minute))
 		return
 	}
 	explore(t, "local-triples", 3, "reduced3", singleFilters(), "class", 60*time.Second)
